@@ -139,6 +139,9 @@ def check(run, prog, tier):
     fault_locality(run, prog, "C11-a")
 
     # ---- C11-d round cursors on removal
+    # the position of the entry being removed: the local that subscripts heart_beats[] in set_heart_beat (whatever it is called)
+    pos_ids = {strip(n["i"]).get("id") for b, i, n in shb.nodes() if n.get("k") == "Sub" and strip(n["b"]).get("n") == "heart_beats" and strip(n["i"]).get("k") == "Ref" and strip(n["i"]).get("d") == "local"}
+    run.need(pos_ids, "local subscript of heart_beats[] in set_heart_beat")
     for var, cmpop, other in (("num_hb_to_do", "<", "num_hb_to_do"), ("heart_beat_index", "<=", "heart_beat_index")):
         decs = [(b, i, n) for b, i, n in shb.nodes() if n.get("k") == "Un" and n.get("op") == "--" and strip(n["e"]).get("n") == var]
         if not decs:
@@ -146,7 +149,7 @@ def check(run, prog, tier):
             continue
         b, i, n = decs[0]
         g = [atom_of(c, t) for c, t, B in cfgq.guards(shb, b.id)]
-        inside = any(op == cmpop and strip(l).get("n") == "index" and strip(r).get("n") == other for op, l, r in g)
+        inside = any(op == cmpop and strip(l).get("id") in pos_ids and strip(l).get("d") == "local" and strip(r).get("n") == other for op, l, r in g)
         in_round = any((op == "true" and strip(l).get("n") == "num_hb_to_do") or (op == "!=" and strip(l).get("n") == "num_hb_to_do" and const_val(r) == 0) for op, l, r in g)
         run.ob("C11-d", "cursor:" + var, inside and in_round and len(decs) == 1, "%s-- under `index %s %s` (%s) and only while a round is running (%s)" % (var, cmpop, other, inside, in_round), shb.file, n.get("l"), "set_heart_beat",
                what="set_heart_beat(ob,0) adjusts %s for entries that are not part of the running round (or not at all): objects are skipped or called twice in that tick" % var)
